@@ -146,6 +146,10 @@ impl Script {
                         _ => cursor.read_u32::<LittleEndian>()? as usize,
                     };
 
+                    if data_length > bytes.len().saturating_sub(cursor.position() as usize) {
+                        return Err(BSVErrors::DeserialiseScript(format!("OP_PUSHDATA length {} exceeds the remaining script bytes", data_length)));
+                    }
+
                     let mut data = vec![0; data_length];
                     if let Err(e) = cursor.read(&mut data) {
                         return Err(BSVErrors::DeserialiseScript(format!("Failed to read OP_PUSHDATA data {}", e)));
